@@ -118,6 +118,11 @@ pub const ILL_TYPED_TEXTS: &[(&str, &str)] = &[
     ("tuple variant too many fields", "enum E { A, B(u8) }\npub fn main(x: u8) -> u8 {\n  let e = E::B(x, x);\n  x\n}\n"),
     ("tuple variant too few fields", "enum E { A, B(u8, u8) }\npub fn main(x: u8) -> u8 {\n  let e = E::B(x);\n  x\n}\n"),
     ("tuple variant wrong field type", "enum E { A, B(u8) }\npub fn main(x: u8) -> u8 {\n  let e = E::B(true);\n  x\n}\n"),
+    ("enum pattern too few fields in match", "enum E { A, B(u8, bool) }\npub fn main(e: E, x: u8) -> u8 {\n  match e {\n    E::A => x,\n    E::B(a) => a,\n  }\n}\n"),
+    ("enum pattern too few fields in let", "enum P { Of(u16, u16, bool) }\npub fn main(p: P, x: u16) -> u16 {\n  let P::Of(a, b) = p;\n  a + b + x\n}\n"),
+    ("enum pattern too few fields in for", "enum P { Of(u8, u8) }\npub fn main(ps: [P; 2], x: u8) -> u8 {\n  let mut s = x;\n  for P::Of(a) in ps {\n    s = s ^ a;\n  }\n  s\n}\n"),
+    ("enum pattern no fields for tuple variant", "enum E { A, B(u8) }\npub fn main(e: E, x: u8) -> u8 {\n  match e {\n    E::A => x,\n    E::B() => x,\n  }\n}\n"),
+    ("enum pattern nested too few fields", "enum E { A, B(u8, u8) }\npub fn main(t: (E, u8), x: u8) -> u8 {\n  match t {\n    (E::B(a), y) => a ^ y,\n    (_, y) => x ^ y,\n  }\n}\n"),
     ("enum pattern arity", "enum E { A, B(u8) }\npub fn main(e: E, x: u8) -> u8 {\n  match e {\n    E::A => x,\n    E::B(a, b) => a,\n  }\n}\n"),
     ("enum pattern of another enum", "enum E { A, B(u8) }\nenum F { A, B(u8) }\npub fn main(e: E, x: u8) -> u8 {\n  match e {\n    F::A => x,\n    F::B(a) => a,\n  }\n}\n"),
     ("struct pattern of another struct", "struct S { a: u8 }\nstruct T { a: u8 }\npub fn main(s: S, x: u8) -> u8 {\n  let T { a } = s;\n  a + x\n}\n"),
@@ -500,10 +505,22 @@ impl M {
                 }
             }
             Pat::EnumTup(_, v, ps) => {
-                if self.rule == Rule::TuplePatArity && self.hit() {
-                    ps.push(pvar("extra_q"));
-                    self.mark(format!("{ctx} enum pattern arity +1"));
-                    return;
+                if self.rule == Rule::TuplePatArity {
+                    if self.hit() {
+                        ps.push(pvar("extra_q"));
+                        self.mark(format!("{ctx} enum pattern arity +1"));
+                        return;
+                    }
+                    if !ps.is_empty() && self.hit() {
+                        ps.pop();
+                        self.mark(format!("{ctx} enum pattern arity -1 (last sub-pattern dropped)"));
+                        return;
+                    }
+                    if ps.len() >= 2 && self.hit() {
+                        ps.remove(0);
+                        self.mark(format!("{ctx} enum pattern arity -1 (first sub-pattern dropped)"));
+                        return;
+                    }
                 }
                 if self.rule == Rule::UnknownVariant && self.hit() {
                     v.push_str("Nope");
@@ -514,10 +531,15 @@ impl M {
                     self.pat(x, ctx);
                 }
             }
-            Pat::EnumUnit(_, v) => {
+            Pat::EnumUnit(e, v) => {
                 if self.rule == Rule::UnknownVariant && self.hit() {
                     v.push_str("Nope");
                     self.mark(format!("{ctx} enum pattern variant"));
+                    return;
+                }
+                if self.rule == Rule::TuplePatArity && self.hit() {
+                    *p = Pat::EnumTup(e.clone(), v.clone(), vec![pvar("extra_q")]);
+                    self.mark(format!("{ctx} unit variant pattern given a sub-pattern"));
                 }
             }
             Pat::Struct(n, fs, _) => {
